@@ -436,6 +436,12 @@ struct Init {
                     if (out) { RunResult r; r.completed = true; return r; }
                 }
                 RunOpts o; RunResult rb = run_program(q, o);
+                auto tag_known = [&](RunResult &r) {   // known finding: records of a cancelled staged put keep counting in the driver's record-dimension size
+                    if (r.violations.empty()) return; sim::ViolationInfo &v = r.violations[0];
+                    if (v.kind != "oracle:numrecs" && !(v.kind == "oracle:inq" && v.detail.find("unlimited dimension") != std::string::npos)) return;
+                    for (size_t i = 0; i < q.ops.size() && (v.op < 0 || (int)i <= v.op); i++) if (!q.ops[i].skip && q.ops[i].note == "bb-cancel-staged-records") { v.detail += " [cancelled-staged-records: op#" + std::to_string(i) + " cancelled a staged put that would have extended the record dimension]"; return; }
+                };
+                tag_known(rb);
                 if (!rb.violations.empty()) return rb;
                 auto is_log = [](const std::string &n) { return n.size() > 5 && (n.compare(n.size() - 5, 5, ".meta") == 0 || n.compare(n.size() - 5, 5, ".data") == 0); };
                 auto viol = [&](const char *kind, const std::string &d) { sim::ViolationInfo v; v.kind = kind; v.detail = d; rb.violations.push_back(v); };
@@ -497,6 +503,11 @@ struct Init {
                         add(zero, one, 0); add(last, one, 1);
                         if (len[nd - 1] >= 2) { auto st = last; st[nd - 1] = len[nd - 1] - 2; auto ct = one; ct[nd - 1] = 2; add(st, ct, 0); }
                         if (len[nd - 1] >= 3) { auto st = zero; if (rec) st[0] = 1; auto ct = one; ct[nd - 1] = 2; std::vector<long long> sd(nd, 1); sd[nd - 1] = len[nd - 1] - 1; add(st, ct, 2, sd); }
+                        if (nd >= 2) {   // strided requests that start in / span the outer dimensions (displacements of whole inner slabs of >= 2^31 bytes)
+                            if (len[nd - 1] >= 3) { auto st = last; st[nd - 1] = 0; auto ct = one; ct[nd - 1] = 2; std::vector<long long> sd(nd, 1); sd[nd - 1] = len[nd - 1] - 1; add(st, ct, 2, sd); }
+                            if (len[0] >= 3 && len[nd - 1] >= 3) { auto ct = one; ct[0] = 2; ct[nd - 1] = 2; std::vector<long long> sd(nd, 1); sd[0] = len[0] - 1; sd[nd - 1] = len[nd - 1] - 1; add(zero, ct, 2, sd); }
+                            if (nd >= 3 && len[1] >= 3 && len[nd - 1] >= 3) { auto st = zero; if (rec) st[0] = 1; auto ct = one; ct[1] = 2; ct[nd - 1] = 2; std::vector<long long> sd(nd, 1); sd[1] = len[1] - 1; sd[nd - 1] = len[nd - 1] - 1; add(st, ct, 2, sd); }
+                        }
                         // elements whose byte offset inside the variable (or record) is just below / at 2^31 and 2^32
                         for (long long B : {1LL << 31, 1LL << 32}) {
                             long long e0 = B / xs - 1; std::vector<long long> st(nd, 0); long long rem = e0; bool ok = true;
